@@ -192,18 +192,28 @@ def execute(case, tape):
                 b.on_agent(x, fn)
 
             drained = True
+            undrained_unreg = set()
             for i, op in enumerate(case["ops"]):
-                # the replica API contract: the computation is known to the directory and
-                # to the replica host -> drain first
-                if op[0] in ("reg_replica", "unreg_comp", "unreg_agent") and not drained:
+                # the API contract: a replica is registered for a computation the directory and
+                # the replica host know; a computation has one host at a time, so a new host
+                # registers only once the former host's un-registration has been processed
+                # (in pyDcop: after the repair protocol) -> drain first
+                need = op[0] in ("reg_replica", "unreg_comp", "unreg_agent") or \
+                    (op[0] == "reg_comp" and op[2] in undrained_unreg)
+                if need and not drained:
                     b.drain()
                     drained = True
+                if drained:
+                    undrained_unreg.clear()
+                if op[0] == "unreg_comp":
+                    undrained_unreg.add(op[2])
                 issued.append((i, drained))
                 run(op)
                 drained = False
                 if tape.coin(case["wait_p"]):
                     b.drain()
                     drained = True
+                    undrained_unreg.clear()
             result["drained"] = b.drain()
             # ---- read the views on the driver thread (everything is parked) ----------
             directory = b.directory
@@ -383,7 +393,7 @@ def check_callbacks(case, issued, cb_log, cmp):
 
 
 RUN_TIMEOUT_S = 120
-BUDGET = {"quick": (20000, 80), "thorough": (300000, 900)}
+BUDGET = {"quick": (12000, 80), "thorough": (300000, 900)}
 REAL = ["pydcop.infrastructure.discovery (Discovery, Directory, DirectoryComputation, "
         "DiscoveryComputation)", "Agent", "Messaging", "InProcessCommunicationLayer"]
 STUB = ["threading/queue/time primitives (threadsim)", "control computation (harness) to run ops "
